@@ -314,7 +314,9 @@ func newEnv(c *suiteCtx, cfg proxyCfg) (*testEnv, error) {
 			if !ok {
 				return false
 			}
-			delete(e.redisFault, strings.ToUpper(cmd))
+			if kind != "always" { // "always": the command keeps failing for the whole request (e.g. a read-only replica refusing writes)
+				delete(e.redisFault, strings.ToUpper(cmd))
+			}
 			if kind == "after" && strings.ToUpper(cmd) == "DEL" {
 				for _, k := range args {
 					mr.Del(k)
